@@ -1,9 +1,19 @@
 ---------------------------- MODULE TraceTemplate ----------------------------
-(* Trace validation for C42: records produced by the real resolveSource / resolveDest (and the real
-   staticsources.Handler run loop) on random templates, group counts and values outside the
-   bounded model. For every record that the statement decides (not amb / undef / straddle) TLC
-   demands that the real output is the single-pass substitution (Scan of Template.tla); records
-   differing from the code-shaped layer 1 are DRIFT.                                        *)
+(* Trace validation for C42.
+
+   kind "func": records produced by the real resolveSource / resolveDest (and one start of the real
+   staticsources.Handler) on random templates, group counts and values outside the bounded model.
+   For every record that the statement decides (not amb / undef / straddle) TLC demands that the
+   real output is the single-pass substitution (Scan of Template.tla); records differing from the
+   code-shaped layer 1 are DRIFT.
+
+   kind "life": one script (scripts of TemplateLife.tla and random ones) replayed on a real
+   staticsources.Handler with an injected source instance: x.ops is what the harness did, x.runs
+   what every Run of the instance received (resolved source, and the template of the
+   configuration passed along). TLC folds the operations (Template!LifeFold) to the (template in
+   force, query of that start) of every run and demands, wherever the statement decides, that the
+   run received exactly their single-pass substitution. A script whose number of runs differs from
+   the fold is MISCOUNT (the harness lost or invented a run: infrastructure, not a verdict).   *)
 EXTENDS Template
 
 Trace == ndJsonDeserialize("C42_trace.ndjson")
@@ -15,13 +25,25 @@ TraceSpec == TraceInit /\ [][TraceNext]_<<l, vars>>
 
 EnvOf(x) == [site |-> x.site, n |-> Len(x.g), g |-> x.g, path |-> x.path, query |-> x.query]
 
-Verdicts ==
-    l >= 1 => LET x == Trace[l]
-                  e == EnvOf(x)
-                  r == Scan(x.tmpl, e)
-                  open == r.amb \/ r.undef \/ Straddle(r, e)
-              IN  /\ Monitor(open \/ OutChars(r) = x.out, [l |-> l, exp |-> Str(OutChars(r)), l1 |-> Str(L1(x.tmpl, e))])
-                  /\ (~open \/ Emit("OPEN", [l |-> l]))
-                  /\ (L1(x.tmpl, e) = x.out \/ Emit("DRIFT", [l |-> l]))
+FuncVerdict(x) ==
+    LET e == EnvOf(x)
+        r == Scan(x.tmpl, e)
+        open == r.amb \/ r.undef \/ Straddle(r, e)
+    IN  /\ Monitor(open \/ OutChars(r) = x.out, [l |-> l, exp |-> Str(OutChars(r)), l1 |-> Str(L1(x.tmpl, e))])
+        /\ (~open \/ Emit("OPEN", [l |-> l]))
+        /\ (L1(x.tmpl, e) = x.out \/ Emit("DRIFT", [l |-> l]))
+
+LifeVerdict(x) ==
+    LET want == LifeFold(LifeInit(x.t0), x.ops, 1).runs IN
+    IF Len(want) # Len(x.runs) THEN Emit("MISCOUNT", [l |-> l, want |-> Len(want), got |-> Len(x.runs)])
+    ELSE \A i \in 1..Len(want) :
+        LET exp == LifeExp(want[i], x.g, x.path) IN
+        /\ Monitor(exp.open \/ exp.out = x.runs[i].resolved,
+                   [l |-> l, run |-> i, exp |-> Str(exp.out), l1 |-> Str(exp.l1),
+                    tmpl |-> Str(want[i].tmpl), query |-> Str(want[i].query)])
+        /\ (~exp.open \/ Emit("OPEN", [l |-> l, run |-> i]))
+        /\ ((exp.l1 = x.runs[i].resolved /\ want[i].tmpl = x.runs[i].conf) \/ Emit("DRIFT", [l |-> l, run |-> i]))
+
+Verdicts == l >= 1 => IF Trace[l].kind = "life" THEN LifeVerdict(Trace[l]) ELSE FuncVerdict(Trace[l])
 Accepted == TLCGet("stats").diameter - 1 = Len(Trace)
 =============================================================================
